@@ -141,7 +141,7 @@ def poly_spec(labels, form, spin, quad=False, tiny=False, boolexpr=False, min_te
     return st.fixed_dictionaries({
         "form": st.just(form),
         "terms": terms,
-        "name": st.just(None) if plain else st.sampled_from([None, None, "nm", 3, ("t", 1)]),
+        "name": st.just(None) if plain else st.sampled_from([None, None, "nm", 3, ("t", 1), 0, "", 0.0, ()]),
         "cons": st.lists(_con(labels), min_size=0, max_size=max_cons) if form in PC and not plain else st.just([]),
         "perm": st.just(None) if (plain or form == "dict" or gen.is_matrix(form)) else _perm(),
         "stale": (st.one_of(st.none(), st.none(), st.sampled_from(labels).map(lambda l: (l,)))
@@ -761,6 +761,37 @@ _simple("utils.normalize/spin", SPIN_FORMS, True, False,
         lambda qv, M, x, l: qv.utils.normalize(M, x["value"]), fresh=True, min_terms=1, nonempty=True)
 
 
+def _set_mapping_entries():
+    """set_mapping(d) must not keep the caller's dict: editing the model afterwards (a new variable gets a
+    mapping entry) must leave d unchanged, and editing d must leave the model's mapping unchanged."""
+    for fam, kinds, spin in (("bool", ["QUBO", "PUBO", "PCBO"], False), ("spin", ["QUSO", "PUSO", "PCSO"], True)):
+        for which in ("set_mapping", "set_reverse_mapping"):
+            def make(which=which):
+                def run(qv, objs, x, labels):
+                    M = objs[0]
+                    mp = M.mapping
+                    n = len(mp)
+                    if n < 1:
+                        raise Skip("no_variables")
+                    new = {l: n - 1 - i for l, i in mp.items()}
+                    arg = new if which == "set_mapping" else {i: l for l, i in new.items()}
+
+                    def post(res):
+                        M[("__new_label__",)] += 1           # the model grows: its own mapping gets an entry
+                        after = M.mapping
+                        arg["__caller_edit__"] = 99          # the caller goes on using its dict
+                        if M.mapping != after:
+                            raise Violation("model_mapping_follows_callers_dict/" + which,
+                                            "editing the dict passed to %s changed the model's mapping" % which)
+                        del arg["__caller_edit__"]
+                    return {"watch": [("mapping_argument", arg)], "call": lambda: getattr(M, which)(arg), "post": post}
+                return run
+            entry("%s/%s" % (which, fam), [Slot(kinds, spin, quad=True, min_terms=1)])(make())
+
+
+_set_mapping_entries()
+
+
 def _to_entries():
     for fam, kinds, spin in (("bool", ["QUBO", "PUBO", "PCBO"], False), ("spin", ["QUSO", "PUSO", "PCSO"], True)):
         for meth in ("to_qubo", "to_quso", "to_pubo", "to_puso", "to_enumerated"):
@@ -913,6 +944,14 @@ def _info_entries():
 _info_entries()
 
 
+def _make_stale(M, x, labels):
+    """Every third case: a labelled model that still reports a variable whose only term cancelled (no refresh)."""
+    if _is_model(M) and not gen.is_matrix(type(M).__name__) and x["idx"] % 3 == 0:
+        k = ("stale_extra",)          # a label that occurs in no term of M
+        M[k] += 1
+        M[k] -= 1
+
+
 def _anneal_entries():
     for name, forms, spin, quad in (("anneal_qubo", BOOL_Q, False, True), ("anneal_quso", SPIN_Q, True, True),
                                     ("anneal_pubo", BOOL_FORMS, False, False), ("anneal_puso", SPIN_FORMS, True, False)):
@@ -923,10 +962,13 @@ def _anneal_entries():
                     M.refresh()
                 if not any(k for k in dict.keys(M)):
                     raise Skip("no_variable_term")
+                _make_stale(M, x, labels)
                 init = None
                 if x["flag"]:
                     if _is_model(M) and gen.is_matrix(type(M).__name__):
                         ls = range(max(M.variables) + 1)
+                    elif _is_model(M):
+                        ls = sorted(M.variables, key=_okey)     # includes a variable whose terms cancelled
                     else:
                         ls = sorted(_labels_of(M), key=_okey)
                     init = {l: (1 - 2 * b if spin else b) for l, b in zip(ls, itertools.cycle(x["bits"]))}
@@ -943,6 +985,7 @@ def _anneal_entries():
             M = objs[0]
             if _is_model(M):
                 M.refresh()
+            _make_stale(M, x, labels)
             return {"watch": [("model", M)],
                     "call": lambda: qv.sim.anneal_temperature_range(M, 0.5, 0.01 if x["flag"] else 0.25, spin=spin)}
         entry("sim.anneal_temperature_range/" + fam, [Slot(forms, spin, min_terms=1, varterm=True)])(run)
